@@ -212,7 +212,10 @@ CaughtUp == IF procExited THEN alive = {}
                             /\ pbox = None
 Convergence == (Quiescent /\ dev = {}) => CaughtUp
 ConvergenceStrict == Quiescent => CaughtUp                    \* violated: LostCancel (finding F6)
+(* the same with exactly one kind of deviation admitted: TLC's counterexamples show what each one leads to *)
+ConvergenceLostCancel == (Quiescent /\ ~procExited /\ dev \subseteq {"LostCancel"}) => CaughtUp      \* violated (F6, stale preview)
 ExitClean == (procExited /\ dev = {}) => alive = {}
+ExitCleanLostKill == (procExited /\ dev \subseteq {"LostKillAtExit"}) => (alive = {} \/ ckind = "finite")   \* violated (F6, survivor)
 ExitCleanStrict == procExited => (alive = {} \/ ckind = "finite")     \* violated: LostKillAtExit / ExitBeforeKill (finding F6)
 Liveness == <>[](~ENABLED System)
 NoSurvivor == (<>(dev # {})) \/ [](procExited => <>(alive = {}))
